@@ -22,6 +22,7 @@ def run(ctx):
     sw = Sweep(ctx, pats, want=("nfa", "ast", "spec"))
     known = {f["id"]: f for f in known_for("C10")}
     stats = {"accepted": 0, "rejected": 0, "crash": 0, "oracle_too_big": 0, "explained_F3": 0, "three_way_compared": 0, "matching_empty": 0}
+    stats["model_timeouts_counted_as_too_big"] = getattr(ctx, "model_timeouts", 0)
     ncorr = 0
     distinct = set()
     for p, n, a, am, s, mn, mf in zip(pats, sw.impl_nfa, sw.impl_ast, sw.model_ast, sw.spec, sw.model_nfa, sw.model_fixed):
